@@ -101,6 +101,23 @@ def compositions(data):
     ]
 
 
+def ufunc_wrappers():
+    """wrappers around ufuncs, dumped after a user module that re-exports the same ufuncs has been imported"""
+    import importlib
+
+    from scipy import special
+    from sklearn.pipeline import Pipeline
+    from sklearn.preprocessing import FunctionTransformer
+
+    from .. import objgen  # noqa: F401  (puts harness/canary on sys.path)
+
+    importlib.import_module("aaa_verif_reexports")
+    import scipy.signal  # noqa: F401  (re-exports scipy.special ufuncs in private modules)
+
+    return [("ft-expit", FunctionTransformer(special.expit, inverse_func=special.logit)), ("ft-binom", FunctionTransformer(special.binom)),
+            ("ft-sqrt-add", Pipeline([("a", FunctionTransformer(np.sqrt)), ("b", FunctionTransformer(np.add, kw_args={"x2": 1}))]))]
+
+
 def parameter_objects():
     """unfitted estimators whose parameters hold every numpy scalar type, as value and as dict key"""
     from sklearn.dummy import DummyClassifier
@@ -227,7 +244,7 @@ def run(ctx):
                     samples.append(dict(estimator=name, params=repr(e2)[:120], untrusted=unt))
         if len(ofails) > 5:
             break
-    for name, est in parameter_objects():
+    for name, est in parameter_objects() + ufunc_wrappers():
         fails, unt = check_estimator(name, est, data, fitted=False)
         stats["unfitted"] += 1
         for f in fails:
